@@ -83,5 +83,18 @@ fn main() {
             Err(_) => { println!("WITNESS: encode panicked on a message with {} attribute bytes", 15 * 4096 + 4 + extra); bad += 1; }
         }
     }
+    // one large attribute value at the limit: a single DATA of v bytes makes 4 + v (padded) attribute bytes; it fits iff that is <= 65535
+    for v in [60000usize, 65507, 65511, 65512, 65519, 65527, 65528, 65529, 65531, 65532, 65535, 70000] {
+        let padded = 4 + v + (4 - v % 4) % 4;
+        let attrs: Vec<StunAttribute> = vec![Data::new(vec![9u8; v]).into()];
+        match std::panic::catch_unwind(std::panic::AssertUnwindSafe(|| enc.encode(&mut big, &build(&attrs)))) {
+            Ok(Ok(n)) => {
+                if padded > 65535 { println!("WITNESS: a DATA value of {} bytes ({} attribute bytes, > 65535) was encoded", v, padded); bad += 1; }
+                else if n != 20 + padded || u16::from_be_bytes([big[2], big[3]]) as usize != padded { println!("WITNESS: a DATA value of {} bytes: size {} / length field {}, expected {}", v, n, u16::from_be_bytes([big[2], big[3]]), 20 + padded); bad += 1; }
+            }
+            Ok(Err(e)) => { if padded <= 65535 { println!("WITNESS: a DATA value of {} bytes fits ({} attribute bytes <= 65535) but was rejected: {:?}", v, padded, e); bad += 1; } }
+            Err(_) => { println!("WITNESS: encode panicked on a DATA value of {} bytes", v); bad += 1; }
+        }
+    }
     if bad == 0 { println!("ok: {} messages x every buffer length x 3 fills", n); } else { std::process::exit(1); }
 }
